@@ -1,6 +1,7 @@
 import Driver.Common
 import Model.OAuth1Flow
 import Model.Fault
+import Model.NonceStore
 namespace Driver.C12
 open Lean Driver Model.OAuth1Flow
 
@@ -52,7 +53,20 @@ def doneOf (j : Json) : Option (List String) :=
   | .ok (.arr a) => some (a.toList.filterMap fun x => x.getStr?.toOption)
   | _ => none
 
+def verdictStr : Model.NonceStore.Verdict → String
+  | .accepted => "accepted" | .staleTimestamp => "stale_timestamp" | .replay => "replay"
+
+/-- the replay guard of the integrations: {"nonce_model": {"window", "ttl"}, "reqs": [{"now", "ts", "key"}]} -/
+def handleNonce (j : Json) : Except String Json := do
+  let m ← j.getObjVal? "nonce_model"
+  let c : Model.NonceStore.Cfg := ⟨← getNat m "window", ← getNat m "ttl"⟩
+  let reqs ← (← getArr j "reqs").toList.mapM fun r => do
+    pure (⟨← getInt r "now", ← getInt r "ts", ← getStr r "key"⟩ : Model.NonceStore.Req)
+  let (_, vs) := Model.NonceStore.run c [] reqs
+  pure (Json.mkObj [("verdicts", Json.arr (vs.map fun v => Json.str (verdictStr v)).toArray)])
+
 def handle : Handler := fun j => do
+  if (j.getObjVal? "nonce_model").isOk then handleNonce j else
   let cfg ← j.getObjVal? "cfg"
   let clients := (← getArr cfg "clients").toList.filterMap fun c => match getStrOpt c "id", getStrOpt c "secret" with
     | some a, some b => some (a, b) | _, _ => none
